@@ -679,13 +679,22 @@ def stampFloat (P : Params) (s n : Int) : PyM Nat :=
 
 /-- `a > b` between two non-`None` timestamps.  `Timestamp.__gt__(ts, x)` and the reflected `Timestamp.__lt__(ts, x)`
 (for `x > ts`) compare `float(ts)` with a non-Timestamp `x` when the `isinstance` guard is in the source (`tsCoerce`);
-without it they read `x.sec`, which a float does not have -/
+without it they read `x.sec`, which a float does not have.  When `float(ts)` overflows, the `except OverflowError`
+fallback (`tsOverflowFallback`) compares `ts.sec` with `x` (int against float: exact, never raises) -/
 def tsGt (P : Params) : OTs → OTs → PyM Bool
   | .stamp s1 n1, .stamp s2 n2 => .ok (if s1 = s2 then decide (n1 > n2) else decide (s1 > s2))
   | .stamp s n, .flt b =>
-    if tsCoerce then (stampFloat P s n).map (fun f => P.lt (.flt b) (.flt f)) else .error .attributeError
+    if tsCoerce then
+      match P.tsFloat s n with
+      | some f => .ok (P.lt (.flt b) (.flt f))
+      | none => if tsOverflowFallback then .ok (P.lt (.flt b) (.int s)) else .error .overflowError
+    else .error .attributeError
   | .flt a, .stamp s n =>
-    if tsCoerce then (stampFloat P s n).map (fun f => P.lt (.flt f) (.flt a)) else .error .attributeError
+    if tsCoerce then
+      match P.tsFloat s n with
+      | some f => .ok (P.lt (.flt f) (.flt a))
+      | none => if tsOverflowFallback then .ok (P.lt (.int s) (.flt a)) else .error .overflowError
+    else .error .attributeError
   | .flt a, .flt b => .ok (P.lt (.flt b) (.flt a))
 
 /-- `a == b` on timestamps that may be `None` (`Timestamp.__eq__` checks `isinstance`; never raises) -/
@@ -755,8 +764,8 @@ def histBucket (P : Params) (h : HSt) (s : OSample) : PyM HSt :=
         | .ok _ =>
           .ok { h with hasNegBuckets := h.hasNegBuckets || P.cmp negBucketCmp (.flt b) (.int 0), bucket := some b, value := s.value }
 
-/-- one iteration of `for s in samples:` -/
-def histStep (P : Params) (name : Str) (h : HSt) (s : OSample) : PyM HSt :=
+/-- one iteration of `for s in samples:` for a sample that is not skipped -/
+def histStepBody (P : Params) (name : Str) (h : HSt) (s : OSample) : PyM HSt :=
   let suffix := s.name.drop name.length
   match groupForSample s name tHistogram with
   | .error e => .error e
@@ -775,6 +784,11 @@ def histStep (P : Params) (name : Str) (h : HSt) (s : OSample) : PyM HSt :=
           | .error e => .error e
           | .ok neg => .ok { h with hasGsum := true, hasNegGsum := h.hasNegGsum || neg }
         else .ok h
+
+/-- one iteration of `for s in samples:` — `if s.native_histogram is not None: continue` first, when that statement
+is in the source (`histSkipsNh`) -/
+def histStep (P : Params) (name : Str) (h : HSt) (s : OSample) : PyM HSt :=
+  if histSkipsNh && s.nh.isSome then .ok h else histStepBody P name h s
 
 def histLoop (P : Params) (name : Str) : HSt → List OSample → PyM HSt
   | h, [] => .ok h
